@@ -127,6 +127,9 @@ theorem Pres.sess_none {s s' : St K V} (h : Pres s s') (hs : s.sess = none) : s'
 
 theorem set_pres (c : Cfg K V) (s : St K V) (k : K) (v : V) : Pres s (s.set c k v).1 := by
   unfold St.set
+  by_cases hv : v = c.tomb
+  · simp only [hv, ↓reduceIte]; exact Pres.refl s
+  simp only [hv, ↓reduceIte]
   split
   · next o ho => exact ⟨rfl, rfl, rfl, by simp [ho], fun _ => rfl⟩
   · next ho =>
